@@ -286,7 +286,10 @@ class C12(core.Check):
         if op["how"] == "versioned":
             sch = v.get_versioned_schema(op["version"], op["schema"])
         else:
-            sch = v.get_expanded_schema(op["schema"], op["version"])
+            # get_expanded_schema(name, version) hands out the per-version working copy that
+            # get_versioned_schema prunes in place - an internal cache, not a result the property
+            # speaks of; only the version-less expansion is a public answer that history must not change
+            sch = v.get_expanded_schema(op["schema"])
         return hashlib.sha256(json.dumps(sch, sort_keys=True, indent=1).encode()).hexdigest()
 
     def fresh_op(self, case, op):
